@@ -6,7 +6,8 @@ are replaced by shims for the duration of a case; the wrapped event loop is a mi
 
   threading.Condition  -> a lock + wait/notify implemented on a *deterministic scheduler*
   threading.Thread     -> a real thread whose start/join go through that scheduler
-  select.select        -> simulated readiness (pipes are "made ready" by the script), blocks in the scheduler
+  select.select        -> simulated readiness (pipes are "made ready" by the script), blocks in the scheduler; raises
+                          OSError(EBADF) when a captured int descriptor has been closed by the script
   socket.socketpair    -> the waker as a byte counter
   loop.call_soon_threadsafe -> FIFO queue, callbacks run by the script on the loop thread
 
@@ -44,6 +45,9 @@ THEOREMS = [
     "TornadoModel.C40.invExit_step",
     "TornadoModel.C40.exit_only_after_closing",
     "TornadoModel.C40.quiescent_nothing_ready",
+    "TornadoModel.C40.quiescent_select_in_progress",
+    "TornadoModel.C40.ebadf_recovers",
+    "TornadoModel.C40.ebadf_round",
     "TornadoModel.C40.ready_fd_forces_progress",
     "TornadoModel.C40.rank_step",
     "TornadoModel.C40.rank_env",
@@ -63,11 +67,14 @@ TRUSTED = [
 ]
 ASSUMPTIONS = [
     "close() is called between callbacks (not from inside a reader/writer callback) and registrations are not changed after close",
-    "select errors (EBADF path) and interpreter shutdown (_atexit_callback) are not exercised in the simulated tier",
+    "a descriptor is closed only after it has been unregistered from both maps (then select may fail with EBADF/WSAENOTSOCK: "
+    "on entry, and per case also while blocked; recovery branch modelled as the code has it); closing a registered descriptor, "
+    "other select errors and interpreter shutdown (_atexit_callback) are not exercised",
     "user fds are never the waker; a raising callback is handed to the loop's exception handler (the loop goes on)",
 ]
-RULE = ("scripts of loop-thread actions (add/remove reader/writer, make fd ready/unready, run a queued callback, callbacks that "
-        "consume / unregister / register, close) x seeded schedules over the yield points of both threads; "
+RULE = ("scripts of loop-thread actions (add/remove reader/writer, close an unregistered fd - possibly captured by the select in "
+        "flight, so that the scripted select raises EBADF -, make fd ready/unready, run a queued callback, callbacks that "
+        "consume / unregister / unregister+close / register, close) x seeded schedules over the yield points of both threads; "
         "non-trivial = at least one user fd dispatched or a registration changed while a select was in progress")
 EXHAUSTIVE = {"quick": False, "thorough": False}
 CLAUSES = {
@@ -83,7 +90,9 @@ CLAUSES = {
         "rank + 2*calls progress steps has dispatched fd), no_lost_event_fair (infinite executions under fairness with finitely many user calls: "
         "the callback runs, no later than the rank+2M+1-th progress step); the first-stated constant bound of 16 steps is false "
         "(no_lost_event_refuted, Refute.s0_needs_17: with 16 readable fds the last needs 17 steps, callbacks of a round run in order) and holds "
-        "where rank <= 16 (no_lost_event_partial); tie: settle-phase oracle Spec.lost on every execution",
+        "where rank <= 16 (no_lost_event_partial); EBADF recovery: ebadf_recovers (the poll finds the waker: the thread does not die), "
+        "ebadf_round (the recovery returns to the loop and the token is posted again), quiescent_select_in_progress (a rest state has a select "
+        "in progress); tie: settle-phase oracle Spec.lost + Spec.inSelect on every execution; liveness across EBADF recoveries: tie only",
     "callbacks never run on the selector thread": "callbacks_on_loop_thread (structural) + thread identity observed in every execution",
     "close always returns with the selector thread stopped": "close_can_wake, close_progress, close_rank_decreases, join_returns",
     "real executions are executions of the model": "tie only: every recorded execution is accepted by Model.step and ends in the model's final state",
@@ -224,6 +233,12 @@ class World:
         self.first_post = True
         self.infra = None
         self.handled = []               # exceptions handed to loop.call_exception_handler
+        self.closes = []                # trace positions of close_fd
+        self.closed = set()             # user fds that have been closed (after being unregistered)
+        self.ebadf_blocked = False      # does closing a captured fd also fail a select that is already blocked?
+        self.after_ebadf = False
+        self.ebadf = 0
+        self.ebadf_where = []
 
     def rec(self, *ev):
         self.trace.append(list(ev))
@@ -232,7 +247,11 @@ class World:
         return x if isinstance(x, int) else x.fileno()
 
     def sets(self, r, w):
-        return [[self.fdnum(x) for x in r], [self.fdnum(x) for x in w]]
+        # a bare int equal to the waker's descriptor number is what the EBADF recovery reports (`_waker_r.fileno()`): it
+        # is not a key of `_readers` (the waker is registered as the socket object) - for `_handle_select` it is nothing
+        def key(x):
+            return not (isinstance(x, int) and x == WAKER)
+        return [[self.fdnum(x) for x in r if key(x)], [self.fdnum(x) for x in w if key(x)]]
 
 
 def make_shims(W):
@@ -376,12 +395,36 @@ def make_shims(W):
         return WakerEnd(True), WakerEnd(False)
 
     def sim_select(r, w, x, timeout=None):
+        import errno
+
         def result():
             rs = [f for f in r if (W.bytes > 0 if W.fdnum(f) == WAKER else W.fdnum(f) in W.readyR)]
             ws = [f for f in w if W.fdnum(f) in W.readyW]
             return rs, ws
+
+        def bad():
+            # descriptors passed as ints that have been closed meanwhile: select(2) fails with EBADF (WSAENOTSOCK)
+            return any(isinstance(f, int) and f in W.closed for f in list(r) + list(w))
+
+        def fail(where):
+            W.after_ebadf = True
+            W.ebadf += 1
+            W.ebadf_where.append(where)
+            raise OSError(errno.EBADF, "Bad file descriptor")
         if timeout is None:
-            sched.yield_point("select", pred=lambda: any(result()))
+            sched.yield_point("select.enter")
+            if bad():                       # closed before the thread got into the system call
+                fail("on-entry")
+            sched.yield_point("select", pred=lambda: any(result()) or (W.ebadf_blocked and bad()))
+            if W.ebadf_blocked and bad():   # closed while the call was blocked (platforms where that fails the call)
+                fail("while-blocked")
+        elif W.after_ebadf:
+            # the recovery branch polls the waker alone right after the failure: one atomic step with it
+            W.after_ebadf = False
+            rs, ws = result()
+            if rs:
+                W.rec("ebadf")
+            return rs, ws, []
         else:
             sched.yield_point("select.poll")
         rs, ws = result()
@@ -431,6 +474,7 @@ class FakeLoop:
 def _run_sim(case):
     import tornado.platform.asyncio as tpa
     W = World(case["sched_seed"], case["stay"])
+    W.ebadf_blocked = bool(case.get("ebadf_blocked"))
     sched = W.sched
     th, selmod, sockmod = make_shims(W)
     behaviours = {}
@@ -449,7 +493,18 @@ def _run_sim(case):
     def do(act):
         s = W.sel
         k = act[0]
-        if k == "add_reader":
+        if k in ("add_reader", "add_writer"):
+            W.closed.discard(act[1])        # a new descriptor with the same number
+        if k == "close_fd":
+            # the application is done with the fd: only ever after it has been unregistered (both maps)
+            if act[1] in s._readers or act[1] in s._writers or act[1] in W.closed:
+                return
+            W.closed.add(act[1])
+            W.closes.append(len(W.trace))
+            for kind, rset in (("R", W.readyR), ("W", W.readyW)):
+                rset.discard(act[1])
+                W.rec("unready", kind, act[1])
+        elif k == "add_reader":
             behaviours[("R", act[1])] = act[2] if len(act) > 2 else []
             W.rec("addReader", act[1])
             s.add_reader(act[1], callback, "R", act[1])
@@ -468,6 +523,8 @@ def _run_sim(case):
             if s.remove_writer(act[1]) != found:
                 W.errors.append("remove_writer returned the wrong flag")
         elif k == "ready":
+            if act[2] in W.closed:
+                return                       # nothing is ever ready on a closed descriptor
             W.rec("ready", act[1], act[2])
             (W.readyW if act[1] == "W" else W.readyR).add(act[2])
         elif k == "unready":
@@ -588,7 +645,8 @@ def _run_sim(case):
                  "closing": bool(s._closing_selector), "bytes": W.bytes, "queue": len(W.queue),
                  "closed": bool(s._closed)}
     return {"trace": W.trace, "outcome": outcome, "final": final, "errors": W.errors, "off_thread": W.off_thread,
-            "dispatched": dispatched, "settle_at": settle_at[0], "switches": sched.switches}
+            "dispatched": dispatched, "settle_at": settle_at[0], "switches": sched.switches,
+            "ebadf": W.ebadf, "ebadf_where": W.ebadf_where, "closes": len(W.closes)}
 
 
 # --------------------------------------------------------------------------- real threads (thorough)
@@ -689,6 +747,9 @@ def _behaviour(rng, kind, fd):
     if k < 0.8:
         other = rng.choice(FDS)
         return [["unready", kind, fd], ["add_reader", other, [["unready", "R", other]]], ["ready", "R", other]]
+    if k < 0.83:
+        # the callback is done with the connection: unregister, then close the descriptor
+        return [["remove_reader" if kind == "R" else "remove_writer", fd], ["close_fd", fd]]
     if k < 0.86:
         return []                                             # level-triggered: stays ready, fires every round
     if k < 0.93:
@@ -713,8 +774,12 @@ def _rand_script(rng):
                 script.append(["ready", "W", fd])
         elif k < 0.38:
             script.append(["remove_reader", fd]); reg["R"].discard(fd)
+            if fd not in reg["W"] and rng.random() < 0.5:
+                script.append(["close_fd", fd])               # unregistered, then closed (possibly before select starts)
         elif k < 0.43:
             script.append(["remove_writer", fd]); reg["W"].discard(fd)
+            if fd not in reg["R"] and rng.random() < 0.5:
+                script.append(["close_fd", fd])
         elif k < 0.6:
             kind = rng.choice(["R", "R", "W"])
             if reg[kind] and rng.random() < 0.8:
@@ -734,8 +799,48 @@ def _rand_script(rng):
 
 
 def _sim_case(rng):
-    return {"kind": "sim", "script": _rand_script(rng), "sched_seed": rng.randrange(1 << 30),
+    case = {"kind": "sim", "script": _rand_script(rng), "sched_seed": rng.randrange(1 << 30),
             "stay": rng.choice([0.0, 0.3, 0.5, 0.7, 0.9]), "close_how": rng.choice(["close", "close", "aclose"])}
+    if "close_fd" in repr(case["script"]):
+        case["ebadf_blocked"] = rng.random() < 0.5
+    return case
+
+
+def _ebadf_cases(rng, per):
+    """an fd is unregistered and closed right after a select captured it: in some schedules before the selector thread
+    gets into the system call (EBADF on entry), in others while it is blocked; afterwards other fds - still registered, or
+    registered later - become ready and must be dispatched.  Every scenario under `per` schedules x both select semantics."""
+    consume = lambda k, fd: [["unready", k, fd]]
+    base = []
+    for kind, add, rem in (("R", "add_reader", "remove_reader"), ("W", "add_writer", "remove_writer")):
+        base += [
+            # captured by the first post of the settle-free prefix, then removed + closed; a new fd afterwards
+            [[add, 3, consume(kind, 3)], ["wait_run"], [rem, 3], ["close_fd", 3], ["add_reader", 4, consume("R", 4)], ["ready", "R", 4]],
+            # ... with another fd that stays registered and becomes ready later
+            [["add_reader", 5, consume("R", 5)], [add, 3, consume(kind, 3)], ["wait_run"], [rem, 3], ["close_fd", 3], ["yield"],
+             ["ready", "R", 5]],
+            # closed from inside its own callback (remove + close), then the descriptor number is reused
+            [[add, 3, [[rem, 3], ["close_fd", 3]]], ["ready", kind, 3], ["wait_run"], ["wait_run"], [add, 3, consume(kind, 3)],
+             ["ready", kind, 3]],
+            # two fds closed one after the other, rounds in between
+            [[add, 3, consume(kind, 3)], ["add_reader", 4, consume("R", 4)], ["wait_run"], [rem, 3], ["close_fd", 3], ["wait_run"],
+             ["remove_reader", 4], ["close_fd", 4], ["add_writer", 5, [["remove_writer", 5]]], ["ready", "W", 5]],
+            # removed, closed, nothing else registered: the pair must come to rest inside select, and close() must return
+            [[add, 3, consume(kind, 3)], ["wait_run"], [rem, 3], ["close_fd", 3]],
+            # removed + closed, then close() at once
+            [[add, 3, consume(kind, 3)], ["wait_run"], [rem, 3], ["close_fd", 3], ["close"]],
+            # removed but NOT closed (control), and closed only after a full round
+            [[add, 3, consume(kind, 3)], ["wait_run"], [rem, 3], ["add_reader", 4, consume("R", 4)], ["ready", "R", 4]],
+            [[add, 3, consume(kind, 3)], ["wait_run"], [rem, 3], ["wait_run"], ["wait_run"], ["close_fd", 3], ["add_reader", 4, consume("R", 4)],
+             ["ready", "R", 4]],
+        ]
+    # registered both ways: closing is allowed only after both registrations are gone
+    base.append([["add_reader", 3, consume("R", 3)], ["add_writer", 3, [["remove_writer", 3]]], ["wait_run"], ["remove_reader", 3],
+                 ["close_fd", 3], ["remove_writer", 3], ["close_fd", 3], ["add_reader", 4, consume("R", 4)], ["ready", "R", 4]])
+    for sc in base:
+        for i in range(per):
+            yield {"kind": "sim", "script": sc, "sched_seed": rng.randrange(1 << 30), "stay": rng.choice([0.0, 0.3, 0.6, 0.85, 0.95]),
+                   "close_how": rng.choice(["close", "aclose"]), "focused": True, "ebadf_blocked": bool(i % 2)}
 
 
 def _focused_cases(rng):
@@ -787,16 +892,19 @@ def _real_case(rng):
 def gen_cases(rng, tier):
     if tier == "quick":
         yield from _focused_cases(rng)
+        yield from _ebadf_cases(rng, 12)
         for _ in range(1000):
             yield _sim_case(rng)
     elif tier == "thorough":
         for _ in range(4):
             yield from _focused_cases(rng)
+        yield from _ebadf_cases(rng, 48)
         for _ in range(3000):
             yield _sim_case(rng)
         for _ in range(30):
             yield _real_case(rng)
     else:
+        yield from _ebadf_cases(rng, 6)
         for _ in range(800):
             yield _sim_case(rng)
 
@@ -888,7 +996,7 @@ def spec_violation(case, impl, replies):
         return "error: %s" % impl["errors"][0]
     st, vals = parse_reply(replies[0])
     assert st == "ok", replies[0]
-    alternates, lostR, lostW, close_ok = _plain(vals)
+    alternates, lostR, lostW, close_ok, in_select = _plain(vals)
     if not alternates:
         return "overlap: posting and taking select arguments do not alternate (more than one select in flight)"
     if o.get("settled") in ("rounds", "quiescent"):
@@ -896,6 +1004,11 @@ def spec_violation(case, impl, replies):
         # 4 full select rounds — two rounds suffice for a correct implementation to notice any registration
         if lostR or lostW:
             return "lost: fds registered and ready throughout the settle phase were never dispatched: R%r W%r" % (lostR, lostW)
+    if o.get("settled") == "quiescent" and not in_select:
+        # both threads at rest, close() not called: the only healthy rest is the selector thread blocked inside select.
+        # Here nothing is posted, nothing queued and no select is running: the select token is gone, _start_select will
+        # never be called again and no readiness of any fd - registered now or later - can ever be dispatched
+        return "deadlock/run: both threads wait for each other: no select in progress and none will be started"
     if not close_ok or o.get("thread_alive"):
         return "close: close() returned without the selector thread having exited / events out of order"
     return None
@@ -904,7 +1017,7 @@ def spec_violation(case, impl, replies):
 def nontrivial(case, impl):
     if case["kind"] != "sim":
         return bool(impl.get("want"))
-    return any(e[0] == "dispatch" for e in impl["trace"])
+    return any(e[0] in ("dispatch", "ebadf") for e in impl["trace"])
 
 
 def stats(case, impl):
@@ -930,6 +1043,15 @@ def stats(case, impl):
         if e[0] == "selected" and e[1] == [WAKER] and not e[2]:
             out.append("woken-by-waker-only")
             break
+    if impl.get("closes"):
+        out.append("fd-closed-after-unregistering")
+        out.append("select-semantics:" + ("closing-fails-blocked-select" if case.get("ebadf_blocked") else "ebadf-on-entry-only"))
+    if impl.get("ebadf"):
+        out.append("select-raised-EBADF:%d" % min(3, impl["ebadf"]))
+        for w in sorted(set(impl.get("ebadf_where", []))):
+            out.append("select-raised-EBADF:" + w)
+        if any(e[0] == "ebadf" for e in tr):
+            out.append("ebadf-recovery-reported")
     out.append("stay:%s" % case["stay"])
     return out
 
@@ -954,10 +1076,13 @@ def shrink(case):
     for stay in (0.9, 0.5, 0.0):
         if case["stay"] != stay:
             yield {**case, "stay": stay}
+    if case.get("ebadf_blocked"):
+        yield {**case, "ebadf_blocked": False}
 
 
 def neighbours(case):
     if case["kind"] != "sim":
         return
     for k in range(40):
-        yield {**case, "sched_seed": (case["sched_seed"] * 31 + k * 7919) % (1 << 30), "stay": [0.0, 0.3, 0.6, 0.9][k % 4]}
+        yield {**case, "sched_seed": (case["sched_seed"] * 31 + k * 7919) % (1 << 30), "stay": [0.0, 0.3, 0.6, 0.9][k % 4],
+               "ebadf_blocked": bool(k & 4) if "ebadf_blocked" in case else False}
